@@ -294,17 +294,20 @@ impl<'s, S: Src> Lender for ProbeLender<'s, S> {
         if st.fired.get().is_some() {
             st.calls_after_fault.set(st.calls_after_fault.get() + 1);
         }
-        if self.pos >= self.n {
-            st.ended.set(true);
-            return None;
-        }
         if let Fault::Item { pass, idx } = self.fault {
             if pass == st.pass.get() && idx == self.pos && st.fired.get().is_none() {
                 st.fired.set(Some((pass, idx as u64)));
                 // the record at this position is lost: a later call continues after it
-                self.pos += 1;
+                // (idx == n: the error replaces the end-of-input answer; a later call returns None)
+                if self.pos < self.n {
+                    self.pos += 1;
+                }
                 return Some(Err(injected(self.tag, &format!("next, pass {} position {}", pass, idx))));
             }
+        }
+        if self.pos >= self.n {
+            st.ended.set(true);
+            return None;
         }
         let i = match (self.tail, self.order) {
             (Some(j), _) if self.pos + 1 == self.n => j as usize,
